@@ -216,27 +216,44 @@ pub fn run(rep: &mut Report) {
     rep.rule = "case = (diagram, numbering of its vertices); detection_webs runs on the hash back end built by named insertion; every returned web is checked on the returned (bipartite) diagram against the spider constraints, boundary edges unmarked, F2 independence, and the number of webs against the dimension of the space of all valid edge labellings found by brute force; non-trivial = a diagram with a non-zero web space handled correctly".into();
     rep.assume("labelling convention read from the code: a firing Z spider writes Pauli::X on its legs; std::HashMap order inside detection_webs is not owned: the oracle is order invariant");
     let quick = rep.quick();
-    let (s, b) = if quick { (3, 2) } else { (4, 2) };
-    let t0 = Instant::now();
-    let fam = family(s, b);
-    let stats = sweep(&fam, |st, i, spec| {
-        watch_begin(i as u64, 0);
-        st.inc("cases");
-        let n = spec.verts.len();
-        // every numbering for <= 5 vertices; beyond that boundaries-first, boundaries-last, reversed and a stride of the rest
-        // (thorough P(4,2): the 720 numberings of the six-vertex diagrams are strided by 61 - twelve of them; with stride
-        // 7 the tier did not finish in 90 minutes)
-        let perms = if n <= 5 { permutations(n, usize::MAX) } else { permutations(n, 5040).into_iter().step_by(if quick { 7 } else { 61 }).collect() };
-        for p in perms {
-            judge(st, spec, &p);
-        }
-        // sparse names as well (ids with gaps)
-        let sparse: Vec<usize> = (0..n).map(|k| 2 * k + 1).collect();
-        judge(st, spec, &sparse);
-        st.sample(1, || spec.to_json());
-        watch_end();
-    });
-    rep.absorb(&format!("P({},{}) x numberings", s, b), &format!("all diagrams with <= {} spiders (Z/X, phases 0/pi, plain edges, same-colour neighbours, isolated spiders, bare wires, spiders with two boundaries), <= {} boundaries x every numbering of their vertices (all n! for n <= 5)", s, b), true, None, t0, stats);
+    // (s, b, all numberings?)  thorough: P(4,2) x all numberings did not finish in two hours (the labelled family alone has
+    // millions of diagrams); the six-vertex diagrams of P(4,2) get three numberings, everything smaller all n!
+    let fams: Vec<(usize, usize, bool)> = if quick { vec![(3, 2, true)] } else { vec![(3, 2, true), (4, 1, true), (4, 2, false)] };
+    for (s, b, all) in fams {
+        let t0 = Instant::now();
+        let fam = family(s, b);
+        let stats = sweep(&fam, |st, i, spec| {
+            watch_begin(i as u64, 0);
+            st.inc("cases");
+            let n = spec.verts.len();
+            let perms: Vec<Vec<usize>> = if !all {
+                // as built, reversed, and one interleaving
+                let id: Vec<usize> = (0..n).collect();
+                let rev: Vec<usize> = (0..n).rev().collect();
+                let mix: Vec<usize> = (0..n).map(|k| (k * 5 + 2) % n.max(1)).collect();
+                let mut v = vec![id, rev];
+                let mut sorted = mix.clone();
+                sorted.sort();
+                if sorted == (0..n).collect::<Vec<_>>() {
+                    v.push(mix);
+                }
+                v
+            } else if n <= 5 {
+                permutations(n, usize::MAX)
+            } else {
+                permutations(n, 5040).into_iter().step_by(7).collect()
+            };
+            for p in perms {
+                judge(st, spec, &p);
+            }
+            // sparse names as well (ids with gaps)
+            let sparse: Vec<usize> = (0..n).map(|k| 2 * k + 1).collect();
+            judge(st, spec, &sparse);
+            st.sample(1, || spec.to_json());
+            watch_end();
+        });
+        rep.absorb(&format!("P({},{}) x {}", s, b, if all { "numberings" } else { "3 numberings" }), &format!("all diagrams with <= {} spiders (Z/X, phases 0/pi, plain edges, same-colour neighbours, isolated spiders, bare wires, spiders with two boundaries), <= {} boundaries x {}", s, b, if all { "every numbering of their vertices (all n! for n <= 5, every 7th of 720 for n = 6) and ids with gaps" } else { "three numberings (as built, reversed, interleaved) and ids with gaps" }), true, None, t0, stats);
+    }
 }
 
 pub fn replay(w: &Value) -> Option<Violation> {
